@@ -15,6 +15,9 @@
 //                         the N ids (a read outside [begin,end)) throws.  Every index printed below is a position.
 //   F <method> <k>        tapkee_internal::find_neighbors(method, begin, end, cb, k, false)
 //                         method: B (Brute) V (VpTree) C (CoverTree)
+//   E <method> <k>        the same as F over a NON-CONTIGUOUS random-access range: the N ids are copied into a std::deque<int>
+//                         (blocks of 128 ints; the copy is preceded by pf pushed-and-popped entries so that the range
+//                         starts inside a block) and find_neighbors runs over deque iterators; output as for F with tag E
 //   G <method> <k>        the same with check_connectivity = true (the search is repeated with 2k, clamped to N-1, until
 //                         the neighbourhood graph is connected); output "G <method> <k> <nrows>" + rows as for F
 //   W <method> <k>        the dispatcher with its exhaustive-search fallback observed: first the raw tree search
@@ -27,7 +30,8 @@
 //                         vector of that row exactly as find_neighbors_bruteforce_impl does (both the
 //                         shipped layout "all samples, position k+1" and the repaired layout "other
 //                         samples, position k") and prints what std::nth_element leaves
-//   T <k> <seed>          builds a VantagePointTree (pivot draws from a seeded stream, logged), dumps
+//   T <k> <seed>          builds a VantagePointTree (pivot draws from a seeded stream, logged; seed % 16 == 0: every draw is
+//                         0.0, seed % 16 == 1: every draw is 1 - 2^-53, the extreme values of uniform_random()), dumps
 //                         it in preorder and prints the raw tree.search(i, k) result of every sample
 //   Q <k>                 builds the cover tree as find_neighbors_covertree_impl does and prints the raw
 //                         candidate lists res[i] of k_nearest_neighbor(.., k) (k as passed, no ++)
@@ -59,6 +63,7 @@
 #include <functional>
 #include <iterator>
 #include <list>
+#include <deque>
 #include <map>
 #include <memory>
 #include <random>
@@ -74,8 +79,15 @@
 
 static unsigned long long g_rng_state = 1;
 static std::vector<double> g_draws;
+static int g_rng_extreme = 0; // 1: every draw 0.0   2: every draw the largest double below 1
 static double harness_uniform()
 {
+    if (g_rng_extreme)
+    {
+        double u = g_rng_extreme == 1 ? 0.0 : 0x1.fffffffffffffp-1;
+        g_draws.push_back(u);
+        return u;
+    }
     g_rng_state = g_rng_state * 6364136223846793005ULL + 1442695040888963407ULL;
     double u = (double)(g_rng_state >> 11) / 9007199254740992.0; // [0,1)
     g_draws.push_back(u);
@@ -221,6 +233,30 @@ template <class CB> static void cmd_table(Samples& s, CB cb)
     }
 }
 
+// E: the same search over a non-contiguous random-access range (std::deque iterators)
+typedef std::deque<int>::iterator DIt;
+template <class DCB> static void run_find_deque(char method, int k, Samples& s, size_t lead, DCB cb_of_deque)
+{
+    NeighborsMethod m = Brute;
+    if (method == 'V') m = VpTree;
+    if (method == 'C') m = CoverTree;
+    std::deque<int> dq;
+    for (size_t i = 0; i < lead; i++) dq.push_back(-1);
+    for (It i = s.begin(); i != s.end(); ++i) dq.push_back(*i);
+    for (size_t i = 0; i < lead; i++) dq.pop_front();
+    Neighbors nb = find_neighbors(m, dq.begin(), dq.end(), cb_of_deque, (IndexType)k, false);
+    printf("E %c %d %zu\n", method, k, nb.size());
+    print_rows<DCB>("r", nb);
+}
+template <class RawCB> static void cmd_find_deque(char method, int k, Samples& s, const RawCB& raw, DistanceType)
+{
+    run_find_deque(method, k, s, 100 + (size_t)k % 60, PlainDistance<DIt, RawCB>(raw));
+}
+template <class RawCB> static void cmd_find_deque(char method, int k, Samples& s, const RawCB& raw, KernelType)
+{
+    run_find_deque(method, k, s, 100 + (size_t)k % 60, KernelDistance<DIt, RawCB>(raw));
+}
+
 template <class CB> static void cmd_oracle(int k, int row, Samples& s, CB cb)
 {
     typedef std::pair<It, ScalarType> DistanceRecord;
@@ -268,7 +304,10 @@ template <class CB> static void cmd_tree(int k, unsigned long long seed, Samples
 {
     g_rng_state = seed * 2654435761ULL + 12345;
     g_draws.clear();
+    g_rng_extreme = seed % 16 == 0 ? 1 : seed % 16 == 1 ? 2 : 0;
+    struct Reset { ~Reset() { g_rng_extreme = 0; } } reset_on_exit;
     VantagePointTree<It, CB> tree(s.begin(), s.end(), cb);
+    g_rng_extreme = 0;
     std::vector<std::string> nodes;
     dump_node(tree, tree.root, s.begin(), nodes);
     printf("T %d %zu\n", k, nodes.size());
@@ -334,6 +373,13 @@ template <class CB> static void dispatch(const std::string& cmd, std::istringstr
         int k;
         is >> m >> k;
         cmd_find(m.empty() ? 'B' : m[0], k, s, cb, cmd == "G");
+    }
+    else if (cmd == "E")
+    {
+        std::string m;
+        int k;
+        is >> m >> k;
+        cmd_find_deque(m.empty() ? 'B' : m[0], k, s, cb.callback, typename CB::type());
     }
     else if (cmd == "W")
     {
